@@ -34,7 +34,7 @@ func (c18) NRuns(tier string) int {
 	if tier == "thorough" {
 		return 1500000
 	}
-	return 6000
+	return 20000
 }
 func (c18) Rule() string {
 	return "each run = G tasks (1..8, thorough up to 64) running random programs over Acquire/hold/Release(pool)/Release(name)/double release/Release(nil) on one namepool (12% wide: each task first holds 6..45 names at once, releases them all, some twice, then continues), sync.Pool replaced by a seeded model with drop-on-put, any-item-on-get and GC-empties-pool faults; non-trivial = at least two tasks held names concurrently or a pooled id was reused; distinct = distinct hash of the (task,site) schedule trace"
